@@ -60,5 +60,7 @@ DefinedOn(s, B) == \A b \in B \ Needed(s) : ExtDefined(s, b)
 Applies(s, B) == \E g \in DNames : AppliesTo(s, DSymSet(g, B))
 \* the code evaluates the symmetric images in some order and stops at the first that applies;
 \* an assertion is hit iff an undefined case is reached before: modelled as "some image undefined"
+\* the minimal presentation of the class of B: the elements that contain no other element
+MinimalPart(B) == {p \in B : \A q \in B : q # p => ~PContains(p, q)}
 SomeImageUndefined(s, B) == \E g \in DNames : ~DefinedOn(s, DSymSet(g, B)) /\ (\A p \in Needed(s) : ~InClass(p, DSymSet(g, B)) \/ TRUE)
 =============================================================================
